@@ -386,3 +386,72 @@ Proof.
     replace (Z.of_nat (Z.to_nat k)) with k by lia.
     replace (8 - (8 - k)) with k by lia. reflexivity.
 Qed.
+
+(** * consequences: Cmp is a total order on canonical encodings *)
+Lemma cmp_sign_inj c d : cmp_sign c = cmp_sign d -> c = d.
+Proof. destruct c, d; cbn; congruence || lia. Qed.
+
+Lemma bits_cmp_lt_trans a b c : bits_cmp a b = Lt -> bits_cmp b c = Lt -> bits_cmp a c = Lt.
+Proof. apply lex_lt_trans; [apply bool_cmp_eq|apply bool_cmp_lt_trans]. Qed.
+
+Lemma bits_cmp_prefix b r : r <> [] -> bits_cmp b (b ++ r) = Lt.
+Proof.
+  intros Hr. unfold bits_cmp. rewrite <- (app_nil_r b) at 1.
+  rewrite lex_cmp_app_same by apply bool_cmp_refl. destruct r; [congruence|reflexivity].
+Qed.
+
+Lemma bits_cmp_first_diff c r1 r2 : bits_cmp (c ++ false :: r1) (c ++ true :: r2) = Lt.
+Proof. unfold bits_cmp. rewrite lex_cmp_app_same by apply bool_cmp_refl. reflexivity. Qed.
+
+Lemma Cmp_zero_iff b1 b2 : Cmp (encB b1) (encB b2) = Some 0 <-> b1 = b2.
+Proof.
+  rewrite Cmp_encB. rewrite <- bits_cmp_eq. split.
+  - intros E. injection E as E. now apply (cmp_sign_inj _ Eq).
+  - now intros ->.
+Qed.
+
+Lemma Cmp_antisym b1 b2 : Cmp (encB b2) (encB b1) = option_map Z.opp (Cmp (encB b1) (encB b2)).
+Proof. rewrite !Cmp_encB. cbn [option_map]. now rewrite bits_cmp_antisym, cmp_sign_opp. Qed.
+
+Lemma Cmp_lt_trans b1 b2 b3 :
+  Cmp (encB b1) (encB b2) = Some (-1) -> Cmp (encB b2) (encB b3) = Some (-1) ->
+  Cmp (encB b1) (encB b3) = Some (-1).
+Proof.
+  rewrite !Cmp_encB. intros E1 E2. injection E1 as E1. injection E2 as E2.
+  apply (cmp_sign_inj _ Lt) in E1, E2. now rewrite (bits_cmp_lt_trans _ _ _ E1 E2).
+Qed.
+
+Lemma Cmp_prefix b r : r <> [] -> Cmp (encB b) (encB (b ++ r)) = Some (-1).
+Proof. intros Hr. now rewrite Cmp_encB, bits_cmp_prefix. Qed.
+
+Lemma Cmp_first_diff c r1 r2 : Cmp (encB (c ++ false :: r1)) (encB (c ++ true :: r2)) = Some (-1).
+Proof. now rewrite Cmp_encB, bits_cmp_first_diff. Qed.
+
+Lemma Cmp_range b1 b2 : exists r, Cmp (encB b1) (encB b2) = Some r /\ (r = -1 \/ r = 0 \/ r = 1).
+Proof. rewrite Cmp_encB. eexists. split; [reflexivity|]. destruct (bits_cmp b1 b2); cbn; auto. Qed.
+
+Lemma encB_inj b1 b2 : encB b1 = encB b2 -> b1 = b2.
+Proof. intros E. apply Cmp_zero_iff. rewrite E. now apply Cmp_zero_iff. Qed.
+
+Lemma CmpUpto_zero_iff a b : bytes_ok a -> CmpUpto a (encB b) = Some 0 <-> upto a b = b.
+Proof.
+  intros Ha. rewrite CmpUpto_encB by exact Ha. rewrite <- bits_cmp_eq. split.
+  - intros E. injection E as E. now apply (cmp_sign_inj _ Eq).
+  - now intros ->.
+Qed.
+
+(** * the compositions the protocol operations run *)
+Lemma Len_New s f t : bytes_ok s -> 0 <= f <= t -> t <= 8 * zlen s ->
+  match New s f t with Some e => Len e | None => None end = Some (spec_Len s f t).
+Proof. intros Hs H Ht. rewrite New_encB by assumption. apply Len_encB. Qed.
+
+Lemma Cmp_New s1 f1 t1 s2 f2 t2 :
+  bytes_ok s1 -> 0 <= f1 <= t1 -> t1 <= 8 * zlen s1 ->
+  bytes_ok s2 -> 0 <= f2 <= t2 -> t2 <= 8 * zlen s2 ->
+  match New s1 f1 t1, New s2 f2 t2 with Some e1, Some e2 => Cmp e1 e2 | _, _ => None end
+  = Some (spec_Cmp s1 f1 t1 s2 f2 t2).
+Proof. intros. rewrite !New_encB by assumption. apply Cmp_encB. Qed.
+
+Lemma CmpUpto_New a s f t : bytes_ok a -> bytes_ok s -> 0 <= f <= t -> t <= 8 * zlen s ->
+  match New s f t with Some e => CmpUpto a e | None => None end = Some (spec_CmpUpto a s f t).
+Proof. intros. rewrite New_encB by assumption. now apply CmpUpto_encB. Qed.
